@@ -95,7 +95,8 @@ class DelayedUnmarshaller(routines.AbstractUnmarshaller[T]):
     def resolved(self) -> routines.AbstractUnmarshaller[T]:
         """The resolved unmarshaller."""
         if self._resolved is None:
-            self._resolved = unmarshaller(self.t)
+            # (The class the reference names *now*: a name may have been bound to another class since.)
+            self._resolved = unmarshaller(refs.evaluate(self.t))
             for attr in self._resolved.__slots__:
                 setattr(self, attr, getattr(self._resolved, attr))
         return self._resolved
